@@ -468,6 +468,28 @@ def free_call(tr, name, sig, argn, n):
         if name == 'addressof':
             return tr.addr(argn[0])
         return tr.e(argn[0])
+    if name in ('any_of', 'all_of', 'none_of') and len(argn) == 3:
+        # iterator-pair form std::any_of(x.begin(), x.end(), pred) over one string / view
+        b, e = strip(argn[0]), strip(argn[1])
+        def whole(x, which):
+            while x.get('kind') in ('ImplicitCastExpr', 'MaterializeTemporaryExpr', 'CXXConstructExpr', 'ExprWithCleanups') and x.get('inner'):
+                x = strip(x['inner'][-1])
+            if x.get('kind') == 'CXXMemberCallExpr':
+                me = strip(x['inner'][0])
+                if me.get('kind') == 'MemberExpr' and me.get('name') in which:
+                    return me['inner'][0], me.get('isArrow', False)
+            return None
+        wb, we = whole(b, ('begin', 'cbegin')), whole(e, ('end', 'cend'))
+        if wb and we and tr.e(wb[0]) == tr.e(we[0]):
+            obj, arrow = wb
+            k = tr.klass(obj) if not arrow else None
+            pred = predicate_name(tr, argn[2])
+            if k == 'sv':
+                return '%s(%s)' % (instance(tr, name, 'sv', pred), tr.e(obj))
+            if k == 'str' or arrow:
+                oe = tr.e(obj)
+                return '%s(str_sv(%s))' % (instance(tr, name, 'sv', pred), oe if arrow else tr.addr(obj, 'str_t'))
+        return None
     if name == 'memcpy' and len(argn) == 3:
         sz = strip(argn[2])
         while sz.get('kind') in ('ImplicitCastExpr', 'CStyleCastExpr') and sz.get('inner'):
